@@ -210,7 +210,8 @@ Definition rx_flush (s : rx) : rx * flush_result * list wake :=
   match flush_loop (Z.to_nat (filled_front s0)) s0 remaining_window 0 0 with
   | None => (s0, FlPanic, [])
   | Some (s1, window, fb, fp) =>
-      if 0 <? fb then
+      (* flushed_packets > 0: an EOF flushed alone carries no bytes (repair of D8) *)
+      if 0 <? fp then
         let wakes := if reader_waker s1 then [WakeReader] else [] in
         (set_wakers s1 (disp_waker s1) false window, FlOk fb, wakes)
       else
